@@ -46,8 +46,7 @@ func (d *Disconnect) Pack(w io.Writer) error {
 
 // Unpack read the packet bytes from io.Reader and decodes it into the packet struct.
 func (d *Disconnect) Unpack(r io.Reader) error {
-	restBuffer := make([]byte, d.FixHeader.RemainLength)
-	_, err := io.ReadFull(r, restBuffer)
+	restBuffer, err := readRemaining(r, d.FixHeader.RemainLength)
 	if err != nil {
 		return codes.ErrMalformed
 	}
